@@ -16,7 +16,7 @@ CONSTANTS
   NZero <- TZero
   MaxBal <- TMaxBal
   UMax <- TUMax
-INVARIANTS CanClose LedgerShape Conservation HeldSigsValid TagSeparation IssuedMatchesLedger TokenOnlyAfterRevocation ClosedOnUnrevoked MerchantExposureBounded NoDoubleSpend RevealedAgree
-PROPERTIES RefusedIsInert ReleaseOnlyOnAccept RefusedStartInert TokenIffOpens RestoreStutters ReplayRefused FaultRefused HonestAccepted
+INVARIANTS CanClose LedgerShape Conservation HeldSigsValid TagSeparation IssuedMatchesLedger TokenOnlyAfterRevocation ClosedOnUnrevoked MerchantExposureBounded NoDoubleSpend DisputeWindow DisputePunishOld DisputeOutcomeConserves MerchantPayoffBound DisputeCustomerSafe RevealedAgree
+PROPERTIES RefusedIsInert OutcomeOnlyByCustomer ReleaseOnlyOnAccept RefusedStartInert TokenIffOpens RestoreStutters ReplayRefused FaultRefused HonestAccepted
 POSTCONDITION Accepted
 CHECK_DEADLOCK FALSE
